@@ -287,6 +287,11 @@ def mon_c04(tr, actor="A"):
             k = stops[0][1]["killed"]
             ex.check("C04", k == (consumed is not None and consumed < stops[0][0] and not run_err),
                      "on_stop(killed=%s) but kill() had %sreturned before on_stop began" % (k, "" if (consumed is not None and consumed < stops[0][0]) else "not "))
+    # "... and not after a panic": no on_stop is entered once a hook of this actor has panicked
+    hp = tr.first(lambda e: e["ev"] == "hook_panic" and e.get("actor") == actor)
+    if hp is not None:
+        late = [i for i, e in stops if i > hp]
+        ex.check("C04", not late, "on_stop ran after %s had panicked" % tr.ev[hp]["hook"])
     if t.state == "panicked":
         p = tr.first(lambda e: e["ev"] == "task_panicked" and e["task"] == t.name)
         # no on_stop *after* the panic (the panic may be in on_stop itself)
